@@ -11,6 +11,7 @@ CONSTANTS
   ReadEdits = FALSE
   FirstWriteKeeps = FALSE
   HookEditsOld = FALSE
+  LendsOld = FALSE
   InitKinds = {"absent", "present"}
   NCases = 0
   MinOps = 1
